@@ -114,7 +114,7 @@ func (g *exprGen) typed(depth int, want string) *model.Node {
 		case "str":
 			return mon.Pick(r, []*model.Node{leafConst("'ab'"), leafConst("'b'"), leafConst("'it''s'"), leafVar("s"), leafVar("t"), leafConst("'2'"), leafConst("'11'"), leafConst("'1.5'")})
 		case "num":
-			return mon.Pick(r, []*model.Node{leafConst("1.5"), leafConst("2e1"), leafVar("f"), leafVar("x"), leafConst("3"), leafVar("a")})
+			return mon.Pick(r, []*model.Node{leafConst("1.5"), leafConst("2e1"), leafVar("f"), leafVar("x"), leafConst("3"), leafVar("a"), leafConst("1e39"), leafConst("4E+38"), leafConst("0.5e-46"), leafConst("3.4e38"), leafConst("1e-45")})
 		}
 		return mon.Pick(r, []*model.Node{leafVar("n"), leafVar("arr"), leafVar("a"), leafConst("'b'"), leafVar("p"), leafVar("x")})
 	}
